@@ -42,21 +42,25 @@ EvalArgs(a, V, PN) ==
       b1 == SeqBad(args, 1)
       b2 == LET RECURSIVE F(_) F(i) == IF i > Len(kw) THEN None ELSE IF KwBad(kw[i].v) # None THEN KwBad(kw[i].v) ELSE F(i + 1) IN F(1)
       dup == \E i, j \in 1..Len(kw) : i < j /\ kw[i].k = kw[j].k
+      \* a measured register and a template parameter in ONE argument: outside every property (the code cannot build the transform)
+      Mixed(v) == v.k = "sym" /\ RegsOf(v.term) # {} /\ ParsOf(v.term) # {}
+      mixed == (\E i \in 1..Len(args) : Mixed(args[i])) \/ (\E i \in 1..Len(kw) : Mixed(kw[i].v))
       ps == ParamsSeq(a.args) \o (LET RECURSIVE F(_) F(i) == IF i > Len(a.kw) THEN <<>> ELSE KwParams(a.kw[i].v) \o F(i + 1) IN F(1))
-  IN [args |-> args, kw |-> kw, bad |-> IF b1 # None THEN b1 ELSE IF b2 # None THEN b2 ELSE IF dup THEN Unspec ELSE None,
+  IN [args |-> args, kw |-> kw, bad |-> IF b1 # None THEN b1 ELSE IF b2 # None THEN b2 ELSE IF dup \/ mixed THEN Unspec ELSE None,
       ps |-> [i \in 1..Len(ps) |-> [sym |-> TRUE, n |-> ps[i]]]]
 
 PNames(P) == {P[i].n : i \in {j \in 1..Len(P) : ~P[j].sym}}
 
 \* ------------------------------------------------------------------ declarations
+Recast(k, v) == IF v.x THEN Num(k, v.re, v.im) ELSE Inx(k, v.term)       \* same value, another numeric kind
 \* PYTHON_TYPES[ty](value): what a declared scalar / loop variable holds
 Conv(ty, v) ==
   CASE IsBad(v) -> v
     [] v.k = "sym" -> v
     [] ty = "int" -> (CASE v.k = "int" -> v [] v.k = "complex" -> Raise("other", "complex") [] OTHER -> Unspec)
-    [] ty = "float" -> (CASE v.k = "int" -> Num("float", v.re, v.im) [] v.k = "float" -> v
+    [] ty = "float" -> (CASE v.k = "int" -> Recast("float", v) [] v.k = "float" -> v
                           [] v.k = "complex" -> Raise("other", "complex") [] OTHER -> Unspec)
-    [] ty = "complex" -> (CASE v.k \in {"int", "float"} -> (IF v.x THEN Num("complex", v.re, v.im) ELSE Inx("complex", v.term))
+    [] ty = "complex" -> (CASE v.k \in {"int", "float"} -> Recast("complex", v)
                             [] v.k = "complex" -> v [] OTHER -> Unspec)
     [] ty = "str" -> (IF v.k = "str" THEN v ELSE Unspec)
     [] ty = "bool" -> (IF v.k = "bool" THEN v ELSE Unspec)
@@ -67,7 +71,7 @@ LoopConv(ty, v) ==
     [] v.k \in {"sym", "arr", "pname", "list"} -> Unspec
     [] ty = "int" -> (CASE v.k = "int" -> v [] v.k = "float" -> (IF v.x /\ ~QIsInt(v.re) THEN Raise("other", "loopval") ELSE Unspec)
                         [] v.k = "str" -> Raise("other", "loopval") [] v.k = "complex" -> Raise("other", "loopval") [] OTHER -> Unspec)
-    [] ty = "float" -> (CASE v.k = "int" -> Num("float", v.re, v.im) [] v.k = "float" -> v
+    [] ty = "float" -> (CASE v.k = "int" -> Recast("float", v) [] v.k = "float" -> v
                           [] v.k \in {"str", "complex"} -> Raise("other", "loopval") [] OTHER -> Unspec)
     [] ty = "str" -> (IF v.k = "str" THEN v ELSE Raise("other", "loopval"))
     [] ty = "bool" -> (CASE v.k = "bool" -> v [] v.k = "str" -> Raise("other", "loopval")
@@ -81,8 +85,8 @@ ElemConv(ty, v) ==
     [] v.k = "sym" -> v
     [] ~IsNum(v) -> Unspec
     [] ty = "int" -> (CASE v.k = "int" -> v [] v.k = "complex" -> Raise("other", "arraytype") [] OTHER -> Unspec)
-    [] ty = "float" -> (CASE v.k = "int" -> Num("float", v.re, v.im) [] v.k = "float" -> v [] OTHER -> Raise("other", "arraytype"))
-    [] ty = "complex" -> (IF v.x THEN Num("complex", v.re, v.im) ELSE Inx("complex", v.term))
+    [] ty = "float" -> (CASE v.k = "int" -> Recast("float", v) [] v.k = "float" -> v [] OTHER -> Raise("other", "arraytype"))
+    [] ty = "complex" -> Recast("complex", v)
     [] OTHER -> Unspec
 
 IsBarePar(e) == e.t = "par"
@@ -90,7 +94,7 @@ IsBarePar(e) == e.t = "par"
 ArrayValue(it, V, PN) ==
   LET rows == [r \in 1..Len(it.rows) |-> [c \in 1..Len(it.rows[r]) |->
                  IF IsBarePar(it.rows[r][c]) THEN Sym(TPar(it.rows[r][c].p))
-                 ELSE LET v == Eval(it.rows[r][c], V, PN) IN IF v.k = "sym" THEN Raise("other", "arraytype") ELSE ElemConv(it.ty, v)]]
+                 ELSE LET v == Eval(it.rows[r][c], V, PN) IN IF v.k = "sym" THEN Unspec ELSE ElemConv(it.ty, v)]]     \* only a BARE {p} is a specified symbolic element
       flat == Flatten(rows)
       bad == SeqBad(flat, 1)
       nrows == Len(rows)
@@ -124,7 +128,7 @@ EmptyProg == [name |-> "blackbird_program", version |-> "1.0",
 \* a symbolic argument that mentions measured registers is delivered as a register transform
 Deliver(v) == IF v.k = "sym" /\ RegsOf(v.term) # {} THEN [k |-> "rrt", term |-> v.term] ELSE v
 ModeOf(v) == IF IsBad(v) THEN v
-             ELSE IF v.k = "int" THEN v
+             ELSE IF v.k = "int" THEN (IF v.x THEN v ELSE Unspec)          \* an integer too large for the model
              ELSE IF v.k \in {"float", "complex", "str", "sym", "arr", "list", "pname"} THEN Raise("other", "mode") ELSE Unspec
 
 \* ------------------------------------------------------------------ template instantiation (program.__call__)
